@@ -604,10 +604,46 @@ def pseudo_keyword_cases():
 NUMERIC_POSTFIX = [b"1 .x", b"1 .x.y", b"(1).x", b"1.5 .x", b"0x1F .x", b"1 [0]", b"1e5 .x", b"-1 .x", b"a + 1 .x", b"f(1 .x)", b".5 .x"]
 
 
+def clause_permutations():
+    """optional clauses in every order (only the documented order is a sentence of the grammar; the others are probes: if a change makes
+    them acceptable, positions and round trip must still be right)"""
+    import itertools
+    out = []
+    tails = [", INTERLEAVE IN PARENT p ON DELETE CASCADE", ", ROW DELETION POLICY (OLDER_THAN(ts, INTERVAL 30 DAY))", ", OPTIONS (o = 1)"]
+    for k in (2, 3):
+        for perm in itertools.permutations(tails, k):
+            out.append(("ParseDDL", ("CREATE TABLE t (a INT64, ts TIMESTAMP) PRIMARY KEY (a)" + "".join(perm)).encode()))
+    colopts = [" NOT NULL", " DEFAULT (1)", " HIDDEN", " PRIMARY KEY", " OPTIONS (o = 1)"]
+    for k in (2, 3):
+        for perm in itertools.permutations(colopts, k):
+            out.append(("ParseDDL", ("CREATE TABLE t (a INT64%s, b INT64) PRIMARY KEY (b)" % "".join(perm)).encode()))
+            out.append(("ParseDDL", ("ALTER TABLE t ADD COLUMN a INT64%s" % "".join(perm)).encode()))
+    idx = [" STORING (c)", " OPTIONS (o = 1)", ", INTERLEAVE IN p"]
+    for k in (2, 3):
+        for perm in itertools.permutations(idx, k):
+            out.append(("ParseDDL", ("CREATE INDEX i ON t (a)" + "".join(perm)).encode()))
+    seq = [" BIT_REVERSED_POSITIVE", " SKIP RANGE 1, 2", " START COUNTER WITH 3"]
+    for k in (2, 3):
+        for perm in itertools.permutations(seq, k):
+            out.append(("ParseDDL", ("CREATE SEQUENCE s" + "".join(perm) + " OPTIONS (o = 1)").encode()))
+            out.append(("ParseDDL", ("CREATE TABLE t (id INT64 GENERATED BY DEFAULT AS IDENTITY (%s)) PRIMARY KEY (id)" % "".join(perm).strip()).encode()))
+    sel = [" WHERE a > 1", " GROUP BY a", " HAVING COUNT(*) > 1", " ORDER BY a", " LIMIT 1"]
+    for perm in itertools.permutations(sel, 3):
+        out.append(("ParseQuery", ("SELECT a FROM t" + "".join(perm)).encode()))
+    dml = [" WHERE a = 1", " THEN RETURN a"]
+    for perm in itertools.permutations(dml, 2):
+        out.append(("ParseDML", ("UPDATE t SET a = 2" + "".join(perm)).encode()))
+        out.append(("ParseDML", ("DELETE FROM t" + "".join(perm)).encode()))
+    cs = [" FOR ALL", " OPTIONS (r = '1d')"]
+    for perm in itertools.permutations(cs, 2):
+        out.append(("ParseDDL", ("CREATE CHANGE STREAM s" + "".join(perm)).encode()))
+    return out
+
+
 def probe_cases():
     """seed-independent inputs that are NOT all sentences of the reference grammar (many are rejected): they probe the oracles that
     apply to whatever is accepted (round trip, positions, traversal ...), never the acceptance property C08"""
-    return literal_systematic() + pseudo_keyword_cases() + [("ParseExpr", x) for x in NUMERIC_POSTFIX]
+    return literal_systematic() + pseudo_keyword_cases() + [("ParseExpr", x) for x in NUMERIC_POSTFIX] + clause_permutations()
 
 
 def systematic_cases(valid_only=True):
